@@ -17,7 +17,7 @@ from vlib.core import hexs, hexlist, VERIF, CheckError
 from vlib.translate import tr_expand
 from vlib.tr_wrapper import tr_wrapper
 from vlib.tr_output import tr_output
-from vlib.tr_fault import tr_fault
+from vlib.tr_fault import tr_fault, fault_values
 from vlib.syslevel import run_many
 from vlib.faultlib import run_fscript, call_line, effective_config, cfg_fields, obs_fields, PLAUSIBLE, NEVER_FAIL
 
@@ -214,8 +214,10 @@ def check(run):
     tr_wrapper(run)
     tr_output(run)
     objs = run.build_objs("prod-ts", san=False, entry=True)
-    fv = tr_fault(run, objs)
+    tr_fault(run, objs)
     ok, failed, log = run.coq_props(["Properties_C03.v"])
+    # constants for everything model-side from here on: run.consts (replaced IN PLACE by the reference constants when an obligation is broken)
+    fv = fault_values(run)
     lib = os.path.join(run.scratch, "lib-prod-ts.so")
     run.link(lib, [], objs, san=False, shared=True)
     os.chmod(run.scratch, 0o755)
@@ -344,8 +346,10 @@ def check(run):
         s, script, i, pl, line, c = corr_bad[0]
         run.violation("corr:trace", "correspondence", "the observed libc-boundary call sequence is not a run of the model: %s [scenario %s, fault plan %s] (%d such traces)" % (
             line.replace("\t", " "), s["name"], pl, len(corr_bad)), {"stream": "fault-trace", "script": script, "call_index": i, "model_says": line, "observed": [r[1:4] for r in c["io"]][:200]})
-    if not ok and not run.violations:
-        run.violation("proof:%s" % failed, "proof", "proof obligation no longer checks: %s\n%s" % (failed, log[-1500:]), {"theorem": failed, "coq_log": log[-3000:]})
+    if not ok and not any(v["kind"] not in ("correspondence", "proof") for v in run.violations):
+        unrec = [n for n in run.notes if n.startswith("translator:") or n.startswith("skeleton translator:")]
+        run.violation("proof:%s" % failed, "proof", "proof obligation no longer checks: %s%s\n%s" % (
+            failed, ("; not recognised by the translator: " + "; ".join(unrec)) if unrec else "", log[-1500:]), {"theorem": failed, "coq_log": log[-3000:], "translator_notes": unrec})
     run.coverage.update({
         "evaluations": state["ncalls"], "distinct_nontrivial": len(state["distinct"]),
         "rule": "per scenario (output x format x filter chain x sink state): the fault-free call, then one call per (position k of its libc-boundary trace, plausible errno of the "
